@@ -54,6 +54,7 @@ Proof.
       with ({| sw_fs := fst (k_chown false (sw_fs sw) (sw_sv sw) p uid gid); sw_sv := sw_sv sw |}, snd (k_chown false (sw_fs sw) (sw_sv sw) p uid gid)).
     cbn [fst sw_fs sw_sv]. split; [apply links_ok_k_chown; assumption|reflexivity].
   - split; [assumption|reflexivity].
+  - rewrite DacGetwd.spec_getwd. split; [assumption|reflexivity].
   - split; [assumption|reflexivity].
   - split; [assumption|reflexivity].
 Qed.
